@@ -374,8 +374,8 @@ func c37(c *Ctx) {
 					if !ok {
 						return false
 					}
-					fv, ok := u.X.(*ssa.FreeVar)
-					return ok && fv.Name() == "h"
+					_, ok = u.X.(*ssa.FreeVar)
+					return ok && isUnsigned(v)
 				}))
 			}
 		}
